@@ -190,8 +190,11 @@ func (s *runState) expire(which string, due bool) {
 	s.armed[which] = false
 	s.l.Timeout(ev)
 	after := s.l.Snap()
-	s.absorb()
+	_, peerArmed := s.absorb()
 	s.expiries++
+	if which == "state" && peerArmed > 0 && before.LoggedOn {
+		s.vio("peer-timer-rearmed-without-inbound: the heartbeat-timer expiry re-armed the test-request / dead-peer timer although nothing was received (test request pending: %v): the silent peer gets more than 1.2 intervals", before.Pending)
+	}
 	s.path.WriteString(fmt.Sprintf("exp:%s(due=%v)|", which, due))
 	if !before.LoggedOn {
 		return
@@ -372,7 +375,10 @@ func history(c *core.Ctx, r *core.Result, stream string, idx int, rng *rand.Rand
 		case "send":
 			before := len(l.Trace)
 			_ = l.Send(lab.AppMessage(fmt.Sprintf("s%d", k)))
-			sa, _ := s.absorb()
+			sa, pa := s.absorb()
+			if pa > 0 {
+				s.vio("peer-timer-rearmed-without-inbound: an application send re-armed the test-request / dead-peer timer: outbound traffic must not keep a silent peer alive")
+			}
 			outs := 0
 			for _, e := range l.Trace[before:] {
 				if e.Kind == "out" {
